@@ -267,8 +267,11 @@ CHECKS = {
              "quick": B(6, 10, 1), "thorough": B(200, 60, 1)},
             {"check": "C12.array", "mode": "enum", "what": "vnadata objects incl. conversions", "quick": B(120, 20, 1), "thorough": B(5000, 200, 1)},
             {"check": "C12.array.files", "mode": "enum", "what": "vnadata save / load", "quick": B(40, 25, 1), "thorough": B(2000, 250, 1)},
+            {"check": "C12.array.noretry", "mode": "enum", "what": "vnadata objects: the failed call is NOT re-issued, the object is used on (model comparison, sanitizers)", "quick": B(80, 20, 1), "thorough": B(4000, 200, 1)},
+            {"check": "C12.array.files.noretry", "mode": "enum", "what": "vnadata format / save / load: the failed call is NOT re-issued; later saves are read by the independent readers", "quick": B(60, 25, 1), "thorough": B(3000, 250, 1)},
             {"check": "C12.cal", "mode": "enum", "what": "parameters, sessions, solve, add_calibration, apply", "quick": B(40, 30, 1), "thorough": B(2000, 300, 1)},
             {"check": "C12.cal.store", "mode": "enum", "what": "vnacal save / load incl. properties", "quick": B(20, 30, 1), "thorough": B(1000, 300, 1)},
+            {"check": "C12.chaos.noretry", "mode": "enum", "what": "chaos scripts, the failed call is NOT re-issued: later calls (solve again, save, free) meet whatever it left", "quick": B(40, 25, 1), "thorough": B(2500, 300, 1)},
             {"check": "C12.chaos", "mode": "enum", "what": "measurement-error model, tolerances, correlated / unknown parameters, rectangular and zero-frequency calibrations, "
                                                            "invalid-argument calls (chaos scripts without vnacal_t replacement)", "quick": B(40, 25, 1), "thorough": B(2500, 300, 1)},
         ],
